@@ -76,6 +76,7 @@ def install(eng):
     reg(enumerate, b_enumerate)
     reg(zip, b_zip)
     reg(id, b_unsupported("id"))
+    reg(super, b_super)
 
 
 _KEEP = []
@@ -99,6 +100,11 @@ def splitargs(impl):
                 out.extend(impl(eng, s, vals, kwargs))
         return out
     return wrapped
+
+
+def b_super(eng, st, args, kwargs):
+    """super() inside an exception class's __init__: the base __init__ only stores args (already recorded)."""
+    return ok(st, VFunc("superproxy", name="super"))
 
 
 def b_unsupported(name):
@@ -488,6 +494,10 @@ def binop(eng, st, op, a, b):
             return VTuple(a.items + b.items)
         if oa is not None and ob is not None and oa.kind == "list" and ob.kind == "list":
             return VRef(st.alloc(HObj("list", None, {"items": oa.f["items"] + ob.f["items"]})))
+        if oa is not None and oa.kind == "slist":
+            a = VSeq(oa.f["e"], oa.f["elem"])
+        if ob is not None and ob.kind == "slist":
+            b = VSeq(ob.f["e"], ob.f["elem"])
         if isinstance(a, VSeq) and isinstance(b, VSeq):
             return VSeq(z3.Concat(a.e, b.e), a.elem, a.is_tuple)
         if isinstance(a, VSeq) and isinstance(b, VTuple) or isinstance(a, VTuple) and isinstance(b, VSeq):
@@ -877,6 +887,10 @@ def getattr_(eng, st, v, name):
                 return r
         raise Unsupported(f"attribute {name} of opaque object {v}")
     if isinstance(v, VFunc):
+        if v.kind == "superproxy":
+            if name == "__init__":
+                return VFunc("builtin", name="super().__init__", impl=lambda e, s, a, k: ok(s, VNone))
+            raise Unsupported(f"super().{name}")
         if name == "__name__":
             return VStr(getattr(v, "qualname", None) or getattr(v, "name", "f"))
         if v.kind == "typeof" and name == "__name__":
@@ -1377,6 +1391,8 @@ def import_value(eng, v, src: State, dst: State):
             return VTuple([import_value(eng, x, src, dst) for x in o.f["items"]])
         if o.kind == "buf":
             return VBytes(o.f["e"], KIND_BYTEARRAY)
+        if o.kind == "slist":
+            return VSeq(o.f["e"], o.f["elem"])
         if o.kind == "cset":
             return VRef(dst.alloc(HObj("cset", None, {"items": [import_value(eng, x, src, dst) for x in o.f["items"]]})))
         if v.oid in dst.heap and dst.heap[v.oid].kind == o.kind and dst.heap[v.oid].cls is o.cls:
